@@ -86,3 +86,29 @@ package paillier
 //@   property C16
 //@   purefn
 //@   ensures err == nil ==> result != nil && result.c == res(sk.group.NthResidue(res(sk.group.EmbedRSA(n.r), 0)), 0).ForgetOrder()
+
+// Encryption, re-randomisation and shifting are the generic compositions (package gift) over this key's own
+// Representative / IdentityNoise / CiphertextOp, for the public and for the secret (CRT) key alike.
+//@ func (*PublicKey).EncryptWithNonce
+//@   property C16
+//@   ensures err == nil ==> result == res(pk.CiphertextOp(res(pk.Representative(p), 0), res(pk.IdentityNoise(n), 0)), 0)
+
+//@ func (*SecretKey).EncryptWithNonce
+//@   property C16
+//@   ensures err == nil ==> result == res(sk.CiphertextOp(res(sk.Representative(p), 0), res(sk.IdentityNoise(n), 0)), 0)
+
+//@ func (*PublicKey).ReRandomise
+//@   property C16
+//@   ensures err == nil ==> result != nil && result.c == res(pk.CiphertextOp(c, res(pk.IdentityNoise(nonce), 0)), 0).Value()
+
+//@ func (*SecretKey).ReRandomise
+//@   property C16
+//@   ensures err == nil ==> result == res(sk.CiphertextOp(c, res(sk.IdentityNoise(n), 0)), 0)
+
+//@ func (*PublicKey).Shift
+//@   property C16
+//@   ensures err == nil ==> result != nil && result.c == res(pk.CiphertextOp(c, res(pk.Representative(delta), 0)), 0).Value()
+
+//@ func (*SecretKey).Shift
+//@   property C16
+//@   ensures err == nil ==> result == res(sk.CiphertextOp(c, res(sk.Representative(m), 0)), 0)
